@@ -241,7 +241,9 @@ func rulesC06(c *Ctx) {
 		}
 		c.Check(okRet, "handle:meta-error-returned", h, nil, "a metadata validation error is returned before any dispatch")
 		hguards := g.GuardsAt(hv)
-		c.Check(hasAtom(hguards, func(a Atom) bool { return AtomSaysNil(a, true, func(e ast.Expr) bool { return errVar != nil && h.ObjOf(e) == errVar }) }),
+		c.Check(hasAtom(hguards, func(a Atom) bool {
+			return AtomSaysNil(a, true, func(e ast.Expr) bool { return errVar != nil && h.ObjOf(e) == errVar })
+		}),
 			"handle:dispatch-only-with-valid-meta", h, g.Node(hv), "handleReceive is reached only when validateRequestMeta returned no error, unconditionally (guards: %s)", atomsString(hguards))
 		// unsupported version
 		supp := c.Obj(pM, "supportedProtocolVersions")
@@ -323,7 +325,35 @@ func rulesC06(c *Ctx) {
 			}
 		}
 		c.Pin("usesNewProtocol:true returns", nTrue, 1)
+		// a _meta entry counts as present only if the key exists and its value is not JSON null (a null would otherwise
+		// decode into a nil pointer that is reported as "present" and dereferenced by the validation that follows)
+		dm := c.Fn(pM, "", "decodeMetaValue")
+		dmg := dm.Graph()
+		var rawV, okV types.Object
+		for _, w := range Writes(dm.Body, false) {
+			if as, isAs := w.Stmt.(*ast.AssignStmt); isAs && len(as.Lhs) == 2 && len(as.Rhs) == 1 {
+				if mm, _, isIx := indexOf(as.Rhs[0]); isIx && dm.ObjOf(mm) == types.Object(dm.NonRecvParams()[0]) {
+					rawV, okV = dm.ObjOf(as.Lhs[0]), dm.ObjOf(as.Lhs[1])
+				}
+			}
+		}
+		c.Need(rawV != nil && okV != nil, "decodeMetaValue: raw, ok := m[key]")
+		nP := 0
+		for i, r := range dm.Returns() {
+			if len(r.Results) != 2 || exprStr(r.Results[1]) != "true" {
+				continue
+			}
+			nP++
+			guards := dmg.GuardsAt(dmg.VertexOf(r))
+			present := hasAtom(guards, func(a Atom) bool { return a.Val && dm.ObjOf(a.E) == okV })
+			nonNull := hasAtom(guards, func(a Atom) bool { return AtomSaysNil(a, false, func(e ast.Expr) bool { return dm.ObjOf(e) == rawV }) })
+			c.Check(present && nonNull, "decodeMetaValue:present-means-key-and-non-null#"+itoa(i), dm, r, "(value, true) is returned only when the key exists and its value is not nil (guards: %s)", atomsString(guards))
+		}
+		c.Pin("decodeMetaValue 'present' returns", nP, 2)
 	})
+
+	c.Import("R-C06-4", "the HTTP transport cannot be used to smuggle per-request metadata past the stateful endpoint: the body's _meta.protocolVersion is read unconditionally and triggers the header/body cross-check", "C12", "R-C12-1", func(k string) bool { return strings.Contains(k, "mirror-gate") })
+	c.Import("R-C06-5", "the _meta member that opens the per-request path is matched case-sensitively, like every other wire decode (a differently-cased key must not count as metadata)", "C19", "R-C19-5", nil)
 
 	c.Rule("R-C06-3", "lifecycle state changes only through guarded transitions; rejected initialize/initialized leave the state untouched", func() {
 		type wsite struct {
@@ -357,7 +387,9 @@ func rulesC06(c *Ctx) {
 			case "(*ServerSession).handle":
 				og := root.Graph()
 				ogd := og.GuardsAt(og.VertexOf(litParentCall(w.f)))
-				ok := inUpdateState(w.f) && hasAtom(ogd, func(a Atom) bool { return !a.Val && phaseVar(root, initParamsF) != nil && root.ObjOf(a.E) == phaseVar(root, initParamsF) }) && hasAtom(ogd, func(a Atom) bool { return a.Val && root.IsField(a.E, unp) })
+				ok := inUpdateState(w.f) && hasAtom(ogd, func(a Atom) bool {
+					return !a.Val && phaseVar(root, initParamsF) != nil && root.ObjOf(a.E) == phaseVar(root, initParamsF)
+				}) && hasAtom(ogd, func(a Atom) bool { return a.Val && root.IsField(a.E, unp) })
 				c.Check(ok, key, w.f, w.n, "handle adopts per-request metadata as session parameters only when not yet initialized and the request uses the new protocol (guards: %s)", atomsString(ogd))
 				// ... and only after the request passed the version gate: a rejected request must not change the phase
 				supp := c.Obj(pM, "supportedProtocolVersions")
